@@ -12,7 +12,7 @@
 (* Renamed, RenameAt, GetAttr), which can stay inside the backend for as   *)
 (* long as the environment likes.  Threads:                                *)
 (*    clunk(r)   Tclunk: LookupFID, safelyRead, DecRef; then DeleteFID      *)
-(*               (fidMu held throughout) -> DecRef                         *)
+(*               -> DecRef (as found, R21: with fidMu held throughout)     *)
 (*    op(r)      a request using fid r: LookupFID (IncRef), safelyRead,    *)
 (*               backend call, deferred DecRef outside every lock          *)
 (*    rename     Trenameat(src,old,tgt,new): safelyGlobal, RenameAt,       *)
@@ -31,6 +31,9 @@
 (*        still holding the source directory's childMu; if that is the     *)
 (*        last reference, DecRef -> removeChild locks the NEW parent's     *)
 (*        childMu - the same mutex for a rename within one directory       *)
+(*   R21  DeleteFID (and InsertFID for a replaced binding) called DecRef,  *)
+(*        hence File.Close, with the connection's fidMu held: a slow Close *)
+(*        stalled every request of that connection                         *)
 (*   R16  notifyNameChange calls Renamed on every reference below the      *)
 (*        moved node without taking a reference first: a reference whose   *)
 (*        count is already zero (its Close running or finished, its        *)
@@ -166,11 +169,14 @@ Cc: await wr[FMU(ConnOf(self))] = 0;
       done[self] := "EBADF";
       goto Fin;
     else
-      wr[FMU(ConnOf(self))] := self;
+      \* as found (R21) DeleteFID kept fidMu across the DecRef, i.e. across File.Close
+      wr[FMU(ConnOf(self))] := IF Dev("R21") THEN self ELSE 0;
       table[ThrCfg[self].r] := FALSE;
       call DecRef(ThrCfg[self].r);
     end if;
-C1: wr[FMU(ConnOf(self))] := 0;
+C1: if wr[FMU(ConnOf(self))] = self then
+      wr[FMU(ConnOf(self))] := 0;
+    end if;
     done[self] := "ok";
     goto Fin;
 
@@ -343,7 +349,7 @@ S2: goto S1;
 Fin: skip;
 end process;
 end algorithm; *)
-\* BEGIN TRANSLATION (chksum(pcal) = "48899473" /\ chksum(tla) = "b38221c7")
+\* BEGIN TRANSLATION (chksum(pcal) = "5e0ae196" /\ chksum(tla) = "1df73e5b")
 CONSTANT defaultInitValue
 VARIABLES pc, refs, par, kids, nat, table, closing, closedN, inb, uac, wr, rd, 
           ww, rw, started, done, stack
@@ -501,7 +507,7 @@ Cc(self) == /\ pc[self] = "Cc"
                   THEN /\ done' = [done EXCEPT ![self] = "EBADF"]
                        /\ pc' = [pc EXCEPT ![self] = "Fin"]
                        /\ UNCHANGED << table, wr, stack, c >>
-                  ELSE /\ wr' = [wr EXCEPT ![FMU(ConnOf(self))] = self]
+                  ELSE /\ wr' = [wr EXCEPT ![FMU(ConnOf(self))] = IF Dev("R21") THEN self ELSE 0]
                        /\ table' = [table EXCEPT ![ThrCfg[self].r] = FALSE]
                        /\ /\ c' = [c EXCEPT ![self] = ThrCfg[self].r]
                           /\ stack' = [stack EXCEPT ![self] = << [ procedure |->  "DecRef",
@@ -514,7 +520,10 @@ Cc(self) == /\ pc[self] = "Cc"
                             rd, ww, rw, started, it, rf, df, orig, sn, tn >>
 
 C1(self) == /\ pc[self] = "C1"
-            /\ wr' = [wr EXCEPT ![FMU(ConnOf(self))] = 0]
+            /\ IF wr[FMU(ConnOf(self))] = self
+                  THEN /\ wr' = [wr EXCEPT ![FMU(ConnOf(self))] = 0]
+                  ELSE /\ TRUE
+                       /\ wr' = wr
             /\ done' = [done EXCEPT ![self] = "ok"]
             /\ pc' = [pc EXCEPT ![self] = "Fin"]
             /\ UNCHANGED << refs, par, kids, nat, table, closing, closedN, inb, 
